@@ -101,6 +101,12 @@ func gen(tier string) []proto.Item {
 							}
 							s.Inject = []proto.Inject{in}
 							items = append(items, proto.Item{Scn: s, Class: fmt.Sprintf("%s/%s/%s/%s/%s/%s", v, form, kind, flow, mode, pos)})
+							if kind == "oversize" {
+								// the same over a capture source that hands over IP packets directly: the read fills the whole buffer
+								s2 := s
+								s2.DirectIP = true
+								items = append(items, proto.Item{Scn: s2, Class: fmt.Sprintf("%s/%s/%s/%s/%s/%s/source-hands-over-ip-packets", v, form, kind, flow, mode, pos)})
+							}
 						}
 					}
 				}
